@@ -168,8 +168,20 @@ def atEnd (p : Params) (b : Book) (fin : Option Final) (e : EndInfo) : List Viol
     else []
   | none => []
 
+/-- whatever the worker's final state: a handle that reads Finished or Closed at rest belongs to a job that ran, or
+    that its owner cancelled / purged / saw rejected — the library never completes a job it did not run -/
+def closedUnrun (tr : List Obs) (b : Book) (e : EndInfo) : List Viol :=
+  if !e.quiescent || e.crashed || b.crashed then [] else
+  tr.foldl (fun vs o => match o with
+    | .fjob k (some st) =>
+      let j := b.job k
+      if (st == .finished || st == .closed) && accepted j && !mayBeGone j && j.entered == 0
+      then vs ++ [s!"job {k} reads {repr st} at rest although its worker function was never invoked and nobody cancelled or purged it"] else vs
+    | _ => vs) []
+
 def check (p : Params) (tr : List Obs) (e : EndInfo) : List Viol :=
   let (_, b, vs) := foldCheck () onEvent tr
+  let vs := vs ++ closedUnrun tr b e
   let spin := if !e.quiescent && !e.crashed && !b.crashed then
       (b.jobs.filter (fun (_, j) => accepted j && !mayBeGone j && j.entered == 0)).map
         (fun (k, _) => s!"accepted job {k} never started: the library spins without reaching quiescence (step budget used up)")
@@ -503,9 +515,32 @@ end C17
 
 -- ===================================================================== C03
 namespace C03
-/-- progress, as "no bad quiescent state". -/
+-- progress, as "no bad quiescent state".
+/-- state for the at-rest clause: payloads the adapter has handed out (successful DequeueWithAckId) -/
+structure St where
+  delivered : List Nat := []
+  deriving Repr
+
+/-- "no job is left in Processing without a goroutine executing it", observed at a moment of rest in the middle of a
+    run (`rest`: no goroutine other than the observing client can run): an item the queue handed out has a goroutine
+    that is runnable until it enters the worker function, so at rest every handed-out item has entered. Evaluated in
+    programs whose backend acknowledges slowly (`ackHold`; no undecodable entries there): a job whose acknowledgement
+    is in progress must not make handed-out jobs wait behind it. -/
+def onEvent (p : Params) (s : St) (b : Book) (o : Obs) (_ : Book) : St × List Viol :=
+  match o with
+  | .adapter _ _ "deq" arg res =>
+    if res == ["false"] || arg == "_" then (s, []) else ({ s with delivered := arg.toNat?.getD 0 :: s.delivered }, [])
+  | .rest =>
+    if !p.ackHold then (s, []) else
+    let waiting := s.delivered.reverse.filter (fun k => (b.job k).entered == 0)
+    (s, if waiting.isEmpty then [] else
+      [s!"items {waiting} were handed out by the queue but no goroutine has started them, and nothing can run: dispatched jobs wait behind another job's acknowledgement (left in Processing without a goroutine executing them)"])
+  | _ => (s, [])
+
 def check (p : Params) (tr : List Obs) (e : EndInfo) : List Viol :=
+  let (_, _, vrest) := foldCheck ({} : St) (onEvent p) tr
   let (_, b, _) := foldCheck () (fun _ _ _ _ => ((), [])) tr
+  vrest ++
   if e.crashed || b.crashed then ["process crashed (a goroutine died)"] else
   if !e.quiescent then
     -- the step budget (far above what any generated program needs) was used up: some goroutine spins
